@@ -124,6 +124,10 @@ def traced(f):
     return wrapper
 
 
+RESERIALISED = [0]
+RESERIALISED_DIFFERS = []
+
+
 def build_one(gg, ns, prog, decorate=False, describe=False):
     """-> ('ok', sha, nunits) | ('exc', ExceptionClassName)"""
     try:
@@ -140,6 +144,18 @@ def build_one(gg, ns, prog, decorate=False, describe=False):
             else:
                 SynthDesc.new_from(sd)
         b = bytes(sd.as_bytes())
+        # the same definition object serialised again through the writer that
+        # load() / store() / send() use (as_bytes() keeps its first result): the
+        # first serialisation must not have changed the object
+        try:
+            import io
+            st = io.BytesIO()
+            sd._write_def_list([sd], st)
+            RESERIALISED[0] += 1
+            if st.getvalue() != b:
+                RESERIALISED_DIFFERS.append(prog.get('name'))
+        except AttributeError:
+            pass
         return ['ok', hashlib.sha256(b).hexdigest(), len(sd._children)]
     except Exception as e:
         return ['exc', type(e).__name__]
@@ -400,6 +416,11 @@ def run_shard(spec, acc):
         for e in errs[:3]:
             acc.violation('C20/harness-thread-raised', {'tb': e})
     acc.extra['progs'] = out
+    acc.count('definitions_serialised_twice', RESERIALISED[0])
+    if RESERIALISED_DIFFERS:
+        acc.violation('C20/bytes-differ/second-serialisation-of-one-definition',
+                      {'definitions': RESERIALISED_DIFFERS[:5], 'n': len(RESERIALISED_DIFFERS),
+                       'shard': cfg['name']})
     acc.case(h64((cfg['name'], len(out))), nontrivial=False)
 
 
